@@ -30,6 +30,9 @@ def has_boolop_in_expr(src):
     """An and/or that the front end hoists out of a binary operation, comparison or call whose
     earlier operands Python evaluates first."""
     for n in ast.walk(ast.parse(src)):
+        if isinstance(n, ast.AugAssign) and not isinstance(n.target, ast.Name) and \
+                any(isinstance(x, ast.BoolOp) for x in ast.walk(n.value)):
+            return True          # the target's sub-expressions are evaluated before the value in Python
         if isinstance(n, ast.BinOp):
             ops = [n.left, n.right]
         elif isinstance(n, ast.Compare):
